@@ -17,7 +17,7 @@ Clauses(e) == <<
   <<"traceback_starts_at_user_line", Len(e.obs) >= 1 /\ e.obs[1] = 0>>,
   <<"traceback_follows_enclosing_frames", e.obs = Capture(e.n).frames>>,
   <<"truncated_exactly_beyond_limit", e.trunc = Capture(e.n).truncated>>,
-  <<"rendered_outermost_first", e.rendered = Rendered(e.n) /\ e.rendered_trunc_first = Capture(e.n).truncated>> >>
+  <<"rendered_outermost_first", e.rcheck => (e.rendered = Rendered(e.n) /\ e.rendered_trunc_first = Capture(e.n).truncated)>> >>
 
 TStep ==
   /\ l <= Len(Ev) /\ l' = l + 1 /\ UNCHANGED <<tid, avars>>
